@@ -167,7 +167,7 @@ def build_world(rng, scenario=None, nproc=None):
     w = W()
     uid = 1000
     home = w.dir(R + b"/home/u")
-    scenario = scenario or rng.choice(["first-use", "collision", "collision", "volume", "mixed-kinds", "self-containing"])
+    scenario = scenario or rng.choice(["first-use", "collision", "collision", "volume", "mixed-kinds", "self-containing", "suffix-twins"])
     where = home
     opts = {}
     if scenario == "volume":
@@ -181,7 +181,10 @@ def build_world(rng, scenario=None, nproc=None):
         # refused, its info file removed again - while the others trash entries of the same name into that directory
         opts = {"trashDir": home + b"/dir0/" + name + b"/T"}
     procs = []
+    base_name = name
     for k in range(nproc):
+        # (suffix-twins: entries called N and N.trashinfo - different info names, different payload names, nothing in common)
+        name = base_name + (b".trashinfo" if scenario == "suffix-twins" and k % 2 == 1 else b"")
         d = where + b"/dir%d" % k
         w.dir(d)
         kind = make_entry(rng, w, d, name, rng.choice(["file", "tree", "link-dangling"]) if scenario == "mixed-kinds" else
@@ -207,7 +210,7 @@ def build_world(rng, scenario=None, nproc=None):
         w.dir(t + b"/info", 0o700)
         populate_trash(rng, w, t, [name], rng.randint(1, 3))
     world = w.world(env={"HOME": home}, uid=uid, cwd=home, cmd="put", args=[], opts=opts, argv=[], stdin=None, meta=[])
-    return world, procs, scenario, name, nproc
+    return world, procs, scenario, base_name, nproc
 
 
 def random_schedule(task, rng, drv, world, procs, scenario, name, nproc):
@@ -243,7 +246,7 @@ def add_concurrent(ck, tier, seed, oracles=None, n_quick=120, n_thorough=3000, f
     # directed part: one preemption of process 0 at each of its first 70 steps, for the scenarios where a window matters
     ns = min(12, max(1, n // 40))
     tasks += [{"seed": seed, "i": 100000 + j, "follow": follow, "scenario": sc, "nproc": 2, "preempt_sweep": 70}
-              for j in range(ns) for sc in ("self-containing", "collision", "first-use")]
+              for j in range(ns) for sc in ("self-containing", "collision", "first-use", "suffix-twins")]
     for r in run_tasks(par_task, tasks):
         if "machinery" in r:
             raise MachineryError(r["machinery"])
